@@ -14,3 +14,11 @@ find . -type f \( -name '*.lean' -o -name '*.py' -o -name '*.json' -o -name '*.s
   -not -path './lean/.lake/*' -not -path './replays/*' -not -path './evidence/*' -not -path '*/__pycache__/*' | sort | while read f; do
   if [ -e "/verif/$f" ] && ! cmp -s "$f" "/verif/$f"; then echo "  ~ $f"; fi
 done
+# optional: --update '<regex>' re-copies differing files whose path matches the regex (files owned by that builder)
+if [ "$2" = "--update" ] && [ -n "$3" ]; then
+  echo "== updated owned files matching /$3/"
+  find . -type f \( -name '*.lean' -o -name '*.py' -o -name '*.json' \) \
+    -not -path './lean/.lake/*' -not -path './replays/*' -not -path './evidence/*' -not -path '*/__pycache__/*' | grep -E "$3" | sort | while read f; do
+    if [ -e "/verif/$f" ] && ! cmp -s "$f" "/verif/$f"; then cp "$f" "/verif/$f"; echo "  * $f"; fi
+  done
+fi
